@@ -1073,10 +1073,8 @@ impl SparqlDatabase {
                         (object_raw, vec![])
                     };
 
-                    let subject =
-                        this.resolve_query_term(&Self::clean_turtle_term(s_raw), &this.prefixes);
-                    let predicate =
-                        this.resolve_query_term(&Self::clean_turtle_term(p_raw), &this.prefixes);
+                    let subject = this.turtle_resource_term(s_raw);
+                    let predicate = this.turtle_resource_term(p_raw);
                     let object = this.turtle_object_term(&object_part);
 
                     // Emit the main triple
@@ -1108,10 +1106,7 @@ impl SparqlDatabase {
                         let qt_str = format!("<< {} {} {} >>", subject, predicate, object);
                         let qt_id = this.encode_term_star(&qt_str);
 
-                        let ann_p_id = this.encode_term_star(&this.resolve_query_term(
-                            &Self::clean_turtle_term(ann_pred),
-                            &this.prefixes,
-                        ));
+                        let ann_p_id = this.encode_term_star(&this.turtle_resource_term(ann_pred));
                         let ann_o_id = this.encode_term_star(&this.turtle_object_term(ann_obj));
 
                         let ann_triple = Triple {
@@ -1283,6 +1278,18 @@ impl SparqlDatabase {
         let raw = raw.trim();
         if raw.starts_with('"') {
             return self.clean_ntriples_term(raw);
+        }
+        self.turtle_resource_term(raw)
+    }
+
+    /// A non-literal Turtle term. An IRIREF `<...>` is taken verbatim: it is already
+    /// an absolute IRI and must never be read as a prefixed name, whatever its scheme
+    /// (`<urn:x:y>` stays `urn:x:y` even when a prefix `urn:` is declared). Only a
+    /// bare token is resolved against the declared prefixes.
+    fn turtle_resource_term(&self, raw: &str) -> String {
+        let raw = raw.trim();
+        if !raw.starts_with("<<") && raw.len() >= 2 && raw.starts_with('<') && raw.ends_with('>') {
+            return raw[1..raw.len() - 1].to_string();
         }
         self.resolve_query_term(&Self::clean_turtle_term(raw), &self.prefixes)
     }
